@@ -834,7 +834,7 @@ pub fn run(ctx: &Ctx) {
     ctx.subspace("proptest random byte strings (<= 2 KiB; small-alphabet strings for TLV structure)", n5 as u64, false);
 
     if std::env::var("VCHECK_FUZZ").is_ok() && !ctx.quick() {
-        crate::fuzzdrv::run_campaign(ctx, "decode_codecs", 1_500_000);
+        crate::fuzzdrv::run_campaign_par(ctx, "decode_codecs", 6_000_000, 8, 4096);
     }
 }
 
